@@ -9,7 +9,9 @@ use std::collections::HashMap;
 use anoncreds::verif_hooks::Query;
 
 pub const META_TAGS: &[&str] = &["schema_id", "schema_issuer_did", "schema_issuer_id", "schema_name", "schema_version", "issuer_did", "issuer_id", "cred_def_id", "rev_reg_id"];
-pub const ATTR_TAGS: &[&str] = &["attr::name::value", "attr::name::marker", "attr::age::value", "attr::age::marker", "attr::zip::value", "attr::zip::marker", "attr::na:me::value", "attr::::marker", "attr::name::valu", "attr::name::value\n", "xattr::name::marker"];
+pub const ATTR_TAGS: &[&str] = &["attr::name::value", "attr::name::marker", "attr::age::value", "attr::age::marker", "attr::zip::value", "attr::zip::marker", "attr::na:me::value", "attr::::marker", "attr::name::valu", "attr::name::value\n", "xattr::name::marker",
+    // other spellings of the same attribute (the verifier normalises names elsewhere; these tags are matched exactly)
+    "attr::NAME::value", "attr::Name::marker", "attr::na me::value", "attr:: name::value", "attr::name ::marker", "attr::AGE::value", "attr::Age::marker"];
 pub const JUNK_TAGS: &[&str] = &["junk", "", "$neq", "$in", "$like", "$foo", "schema_id ", "Schema_Id"];
 
 pub struct FilterSpec {
@@ -202,11 +204,12 @@ pub fn gen(rng: &mut Rng, thorough: bool, out: &mut Out) -> Vec<Value> {
                 let name_v = *rng.pick(&[Some("Alice"), Some("miss"), None, Some("")]);
                 let age_v = *rng.pick(&[Some("25"), None]);
                 let mut vals = vec![];
+                // the key is the requested spelling (legacy) or the credential's (W3C): any spelling can occur
                 if rng.chance(4, 5) {
-                    vals.push(json!(["name", name_v]));
+                    vals.push(json!([*rng.pick(&["name", "name", "name", "NAME", "Name", "na me", " name"]), name_v]));
                 }
                 if rng.chance(1, 2) {
-                    vals.push(json!(["age", age_v]));
+                    vals.push(json!([*rng.pick(&["age", "age", "AGE", "Age"]), age_v]));
                 }
                 cases.push(json!({"op":"q_eval","fam":"c06.eval","q":q,"filter":filter_json(f),"values":vals,"nt":true}));
             }
